@@ -195,6 +195,9 @@ Proof.
     destruct (IH r s RO') as [A B]. split; [exact A|eapply sbr_trans; eauto].
 Qed.
 
+(* the 200-step draw loops are used through their specifications only *)
+Global Opaque draw_check draw_check_p.
+
 (* ------------------------------------------------------------------ taking a fresh uid *)
 Lemma inv_bump_uid : forall st, inv st -> inv (set_next_uid (next_uid st + 1) st).
 Proof.
@@ -385,4 +388,839 @@ Proof.
     + auto.
     + cbn. lia.
     + exists []. reflexivity.
+Qed.
+
+(* ------------------------------------------------------------------ qb_loop_job_del *)
+Lemma occ_remove_first_gen : forall f x l y r, remove_first f l = Some (y, r) ->
+  occ x r = occ x l - (if qitem_eqb x y then 1 else 0) /\ (forall it, In it r -> In it l) /\ In y l /\ f y = true.
+Proof.
+  intros f x l y r H. apply remove_first_spec in H. destruct H as (l1 & l2 & -> & -> & F & _).
+  split; [rewrite !occ_app; cbn; lia|]. split; [|split; [apply in_or_app; cbn; auto|exact F]].
+  intros it Hin. apply in_app_or in Hin. apply in_or_app. cbn. tauto.
+Qed.
+Lemma is_job_key_job : forall key it, is_job_key key it = true -> exists u k, it = QJob u k.
+Proof. destruct it; cbn; try discriminate. eauto. Qed.
+
+(* no job with this uid is left once the one occurrence is gone *)
+Lemma job_not_live : forall st u k, occ_all (QJob u k) st <= 0 -> ~ live st 0 u.
+Proof.
+  intros st u k H [[_ (key' & Hin)]|[[K _]|[[K _]|[K _]]]]; try discriminate K.
+  apply in_occ_all in Hin. unfold occ_all in *.
+  rewrite (occ_eqb (QJob u key') (QJob u k) (all_items st)) in Hin by (cbn; apply Z.eqb_refl). lia.
+Qed.
+
+Lemma job_del_ok : forall p key st, inv st -> inv (snd (job_del p key st)) /\ opframe st (snd (job_del p key st)).
+Proof.
+  intros p key st I. unfold job_del.
+  destruct (remove_first (is_job_key key) (wait (lv st p))) as [[it r]|] eqn:R.
+  - (* found on the wait list *)
+    cbn [snd]. destruct (occ_remove_first_gen _ it _ _ _ R) as (_ & _ & Hin & Fk).
+    destruct (is_job_key_job _ _ Fk) as (u & k & ->). cbn [item_uid].
+    rewrite upd_level_emit.
+    set (s1 := upd_level p (fun l => {| wait := r; jobq := jobq l; todo := todo l |}) st).
+    assert (SH : shrinks st s1).
+    { constructor; try reflexivity.
+      - intros x. unfold s1. rewrite occ_all_upd_level. cbn [jobq wait].
+        destruct (occ_remove_first_gen _ x _ _ _ R) as (E & _). rewrite E. destruct (qitem_eqb x (QJob u k)); lia.
+      - intros y H. unfold s1 in H. apply in_all_upd_level in H. cbn [jobq wait] in H.
+        destruct (occ_remove_first_gen _ y _ _ _ R) as (_ & Sub & _).
+        destruct H as [H|[H|H]]; auto; apply in_all_items; exists p; auto.
+      - intros q y H. unfold s1, upd_level, set_lv in H. cbn in H. destruct (prio_eqb q p) eqn:E; [|exact H].
+        apply prio_eqb_eq in E; subst. cbn in H. destruct (occ_remove_first_gen _ y _ _ _ R) as (_ & Sub & _). auto. }
+    assert (I1 : inv s1) by (eapply inv_shrinks; eauto).
+    assert (Hall : In (QJob u k) (all_items st)) by (apply in_all_items; exists p; auto).
+    assert (U : u < next_uid st) by (destruct I as (_ & _ & _ & _ & (_ & _ & _ & _ & Q5 & _) & _); eauto).
+    assert (Z0 : occ_all (QJob u k) s1 <= 0).
+    { unfold s1. rewrite occ_all_upd_level. cbn [jobq wait].
+      destruct (occ_remove_first_gen _ (QJob u k) _ _ _ R) as (E & _). rewrite E. rewrite qitem_eqb_refl.
+      destruct I as (_ & _ & _ & _ & (Q1 & _) & _). specialize (Q1 (QJob u k)). lia. }
+    split.
+    + apply inv_emit_del; [exact I1|exact U|]. eapply job_not_live; eauto.
+    + apply (opframe_trans st s1); [apply opframe_shrinks; exact SH|apply opframe_emit].
+  - destruct (find (is_job_key key) (jobq (lv st p))) as [it|] eqn:Fd; cbn [snd]; [|split; [exact I|apply opframe_refl]].
+    apply find_some in Fd. destruct Fd as [Hin Fk]. destruct (is_job_key_job _ _ Fk) as (u & k & ->). cbn [item_uid].
+    rewrite item_del_emit.
+    set (s1 := item_del p (QJob u k) st).
+    assert (I1 : inv s1) by (apply inv_item_del; exact I).
+    assert (Hall : In (QJob u k) (all_items st)) by (apply in_all_items; exists p; auto).
+    assert (U : u < next_uid st) by (destruct I as (_ & _ & _ & _ & (_ & _ & _ & _ & Q5 & _) & _); eauto).
+    assert (Z0 : occ_all (QJob u k) s1 <= 0).
+    { unfold s1. rewrite occ_all_item_del. rewrite qitem_eqb_refl.
+      assert (1 <= occ (QJob u k) (jobq (lv st p))) by (eapply occ_in; eauto; apply qitem_eqb_refl).
+      pose proof (occ_nonneg (QJob u k) (jobq (lv st High))). pose proof (occ_nonneg (QJob u k) (jobq (lv st Med))).
+      pose proof (occ_nonneg (QJob u k) (jobq (lv st Low))).
+      replace (1 <=? _) with true; [|symmetry; apply Z.leb_le; destruct p; lia].
+      destruct I as (_ & _ & _ & _ & (Q1 & _) & _). specialize (Q1 (QJob u k)). lia. }
+    split.
+    + apply inv_emit_del; [exact I1|unfold s1; rewrite (sh_uid _ _ (shrinks_item_del p (QJob u k) st)); exact U|]. eapply job_not_live; eauto.
+    + apply (opframe_trans st s1); [apply opframe_item_del|apply opframe_emit].
+Qed.
+
+(* ------------------------------------------------------------------ changes to the timer table *)
+Lemma live_change_timers : forall st st' (P : Z -> Prop),
+  all_items st' = all_items st -> polls st' = polls st -> sigs st' = sigs st ->
+  (forall a, live_timer st' a -> live_timer st a \/ P a) ->
+  forall k a, live st' k a -> live st k a \/ (k = 1 /\ P a).
+Proof.
+  intros st st' P A Pl S H k a [[K L]|[[K L]|[[K L]|[K L]]]].
+  - left. left. split; [exact K|]. unfold live_job in *. rewrite A in L. exact L.
+  - destruct (H a L) as [L'|L']; [left; right; left; auto|right; auto].
+  - left. right; right; left. split; [exact K|]. unfold live_fd in *. rewrite Pl in L. exact L.
+  - left. right; right; right. split; [exact K|]. unfold live_sig in *. rewrite S in L. exact L.
+Qed.
+
+(* the parts of the invariant that do not read the timer table *)
+Lemma inv_set_timers : forall ts st, inv st ->
+  inv_t ts (next_uid st) ->
+  (forall i, In (QTimer i) (all_items st) -> exists t, nth_error ts i = Some t /\ t_state t = Joblist) ->
+  (forall a, live_timer (set_timers ts st) a -> live_timer st a \/ ~ gone (out st) 1 a) ->
+  inv (set_timers ts st).
+Proof.
+  intros ts st (I0 & IT & IP & IS & IQ & IG & IR & IRA & IF) NT NQ NL. unfold inv.
+  change (next_uid (set_timers ts st)) with (next_uid st). change (polls (set_timers ts st)) with (polls st).
+  change (sigs (set_timers ts st)) with (sigs st). change (regs (set_timers ts st)) with (regs st).
+  change (fx (set_timers ts st)) with (fx st). change (timers (set_timers ts st)) with ts.
+  split; [exact I0|]. split; [exact NT|]. split; [exact IP|]. split; [exact IS|].
+  split; [|split; [|split; [exact IR|split; [exact IRA|exact IF]]]].
+  - destruct IQ as (Q1 & Q2 & Q3 & Q4 & Q5 & Q6 & Q7). unfold inv_q.
+    split; [exact Q1|]. split; [exact NQ|]. split; [exact Q3|]. split; [exact Q4|]. split; [exact Q5|]. split; [exact Q6|exact Q7].
+  - destruct IG as (G1 & G2 & G3). split; [exact G1|]. split; [|exact G3].
+    intros k a Hg Hl.
+    destruct (live_change_timers st (set_timers ts st) (fun a => ~ gone (out st) 1 a) eq_refl eq_refl eq_refl NL k a Hl) as [H|[K H]].
+    + exact (G2 k a Hg H).
+    + subst k. exact (H Hg).
+Qed.
+Lemma opframe_set_timers : forall ts st,
+  (forall i, tparked st i -> tparked (set_timers ts st) i) -> opframe st (set_timers ts st).
+Proof.
+  intros ts st H. constructor.
+  - intros; apply Z.le_refl.
+  - exact H.
+  - intros i u P. exact P.
+  - intros S; exact S.
+  - cbn; lia.
+  - exists []. reflexivity.
+Qed.
+
+(* growing the table by a zeroed slot *)
+Lemma inv_timers_grow : forall st, inv st -> inv (set_timers (timers st ++ [tslot_zero]) st).
+Proof.
+  intros st I. pose proof I as (I0 & (T1 & T2 & T3) & _ & _ & (_ & Q2 & _) & _).
+  apply inv_set_timers; [exact I| | |].
+  - split; [|split].
+    + intros i t H. apply nth_error_app_new in H. destruct H as [H|[_ ->]]; [eauto|cbn; congruence].
+    + intros i t H. apply nth_error_app_new in H. destruct H as [H|[_ ->]]; [eauto|cbn; lia].
+    + intros i j ti tj Hi Hj Si Sj E. apply nth_error_app_new in Hi. apply nth_error_app_new in Hj.
+      destruct Hi as [Hi|[_ ->]]; [|cbn in Si; congruence]. destruct Hj as [Hj|[_ ->]]; [|cbn in Sj; congruence]. eauto.
+  - intros i H. destruct (Q2 i H) as (t & A & B). exists t. split; [|exact B].
+    rewrite nth_error_app1; [exact A|]. apply nth_error_Some. congruence.
+  - intros a (i & t & A & B & C). left. cbn in A. apply nth_error_app_new in A. destruct A as [A|[_ ->]].
+    + exists i, t. auto.
+    + cbn in C. destruct C as [C|[C _]]; discriminate.
+Qed.
+Lemma tparked_grow : forall st i, tparked st i -> tparked (set_timers (timers st ++ [tslot_zero]) st) i.
+Proof.
+  intros st i [(t & A & B) C]. split; [|exact C]. exists t. split; [|exact B]. cbn.
+  rewrite nth_error_app1; [exact A|]. apply nth_error_Some. congruence.
+Qed.
+
+(* a slot whose state, uid and heap entry stay (e.g. only the check word changes) *)
+Lemma inv_timer_touch : forall i g st, inv st ->
+  (forall t, t_state (g t) = t_state t /\ t_uid (g t) = t_uid t /\ t_exp (g t) = t_exp t) ->
+  inv (set_timers (upd_nth i g (timers st)) st).
+Proof.
+  intros i g st I G. pose proof I as (I0 & (T1 & T2 & T3) & _ & _ & (_ & Q2 & _) & _).
+  assert (N : forall j t', nth_error (upd_nth i g (timers st)) j = Some t' ->
+              exists t, nth_error (timers st) j = Some t /\ t_state t' = t_state t /\ t_uid t' = t_uid t /\ t_exp t' = t_exp t).
+  { intros j t' H. rewrite nth_upd_nth in H. destruct (Nat.eqb i j).
+    - destruct (nth_error (timers st) j) as [t|]; [|discriminate]. cbn in H. inversion H; subst. exists t. split; [reflexivity|apply G].
+    - exists t'. auto. }
+  apply inv_set_timers; [exact I| | |].
+  - split; [|split].
+    + intros j t' H E. destruct (N j t' H) as (t & A & B & C & D). rewrite B. apply (T1 j t A). congruence.
+    + intros j t' H. destruct (N j t' H) as (t & A & B & C & D). rewrite C. eauto.
+    + intros a b ta tb Ha Hb Sa Sb E. destruct (N a ta Ha) as (t1 & A1 & B1 & C1 & D1). destruct (N b tb Hb) as (t2 & A2 & B2 & C2 & D2).
+      apply (T3 a b t1 t2); congruence.
+  - intros j H. destruct (Q2 j H) as (t & A & B). rewrite nth_upd_nth. rewrite A. destruct (Nat.eqb i j); cbn.
+    + exists (g t). split; [reflexivity|]. destruct (G t) as (E & _). congruence.
+    + exists t. auto.
+  - intros a (j & t' & A & B & C). left. cbn in A. destruct (N j t' A) as (t & A1 & B1 & C1 & D1).
+    exists j, t. split; [exact A1|]. split; [congruence|]. rewrite <- B1. exact C.
+Qed.
+
+(* slot i leaves the game: EMPTY, no heap entry; it must be on no list *)
+Lemma inv_timer_clear : forall i g st, inv st -> occ_all (QTimer i) st = 0 ->
+  (forall t, nth_error (timers st) i = Some t -> t_state (g t) = Empty /\ t_uid (g t) = t_uid t /\ t_exp (g t) = None) ->
+  inv (set_timers (upd_nth i g (timers st)) st) /\
+  (forall t, nth_error (timers st) i = Some t -> t_state t <> Empty -> ~ live (set_timers (upd_nth i g (timers st)) st) 1 (t_uid t)).
+Proof.
+  intros i g st I Z G. pose proof I as (I0 & (T1 & T2 & T3) & _ & _ & (_ & Q2 & _) & _).
+  assert (N : forall j t', nth_error (upd_nth i g (timers st)) j = Some t' ->
+              (j <> i /\ nth_error (timers st) j = Some t') \/
+              (j = i /\ exists t, nth_error (timers st) i = Some t /\ t' = g t)).
+  { intros j t' H. rewrite nth_upd_nth in H. destruct (Nat.eqb i j) eqn:E.
+    - apply Nat.eqb_eq in E; subst. destruct (nth_error (timers st) j) as [t|]; [|discriminate]. cbn in H. inversion H; subst.
+      right. split; [reflexivity|]. exists t. auto.
+    - apply Nat.eqb_neq in E. left. split; [congruence|exact H]. }
+  split.
+  - apply inv_set_timers; [exact I| | |].
+    + split; [|split].
+      * intros j t' H E. destruct (N j t' H) as [[_ A]|[_ (t & A & ->)]]; [eauto|]. destruct (G t A) as (_ & _ & X). congruence.
+      * intros j t' H. destruct (N j t' H) as [[_ A]|[_ (t & A & ->)]]; [eauto|]. destruct (G t A) as (_ & X & _). rewrite X. eauto.
+      * intros a b ta tb Ha Hb Sa Sb E.
+        destruct (N a ta Ha) as [[Na A]|[_ (t & A & ->)]]; [|destruct (G t A) as (X & _); congruence].
+        destruct (N b tb Hb) as [[Nb B]|[_ (t & B & ->)]]; [|destruct (G t B) as (X & _); congruence]. eauto.
+    + intros j H. destruct (Q2 j H) as (t & A & B). assert (j <> i) by (intros ->; apply in_occ_all in H; lia).
+      exists t. split; [|exact B]. rewrite nth_upd_nth_other; auto.
+    + intros a (j & t' & A & B & C). left. cbn in A. destruct (N j t' A) as [[_ A1]|[_ (t & A1 & ->)]].
+      * exists j, t'. auto.
+      * destruct (G t A1) as (X & _). destruct C as [C|[C _]]; congruence.
+  - intros t Hn Hs [[K _]|[[_ (j & t' & A & B & C)]|[[K _]|[K _]]]]; try discriminate K.
+    cbn in A. destruct (N j t' A) as [[Nj A1]|[_ (t0 & A1 & ->)]].
+    + apply Nj. apply (T3 j i t' t A1 Hn); [destruct C as [C|[C _]]; congruence|exact Hs|exact B].
+    + destruct (G t0 A1) as (X & _). destruct C as [C|[C _]]; congruence.
+Qed.
+
+(* ------------------------------------------------------------------ qb_loop_timer_add *)
+Lemma inv_set_regs : forall rs st, inv st -> inv_r rs -> inv (set_regs rs st).
+Proof.
+  intros rs st (I0 & IT & IP & IS & IQ & IG & IR & IRA & IF) R. unfold inv. cbn.
+  split; [exact I0|]. split; [exact IT|]. split; [exact IP|]. split; [exact IS|]. split; [exact IQ|].
+  split; [exact IG|]. split; [exact R|]. split; [exact IRA|exact IF].
+Qed.
+Lemma inv_r_assoc_set : forall rs r h, inv_r rs -> (h = 0 \/ 0 < h / TWO32) -> inv_r (assoc_set r h rs).
+Proof.
+  induction rs as [|[a w] rs IH]; intros r h I H; cbn.
+  - intros r' h' [E|[]]. inversion E; subst. exact H.
+  - destruct (a =? r).
+    + intros r' h' [E|E]; [inversion E; subst; exact H|]. apply (I r' h'). right. exact E.
+    + intros r' h' [E|E]; [apply (I r' h'); left; exact E|].
+      assert (I' : inv_r rs) by (intros x y Hx; apply (I x y); right; exact Hx).
+      exact (IH r h I' H r' h' E).
+Qed.
+Lemma inv_r_assoc : forall rs r, inv_r rs -> assoc r rs = 0 \/ 0 < assoc r rs / TWO32.
+Proof.
+  induction rs as [|[a w] rs IH]; intros r I; cbn; [left; reflexivity|].
+  destruct (a =? r).
+  - apply (I a w). left. reflexivity.
+  - apply IH. intros x y Hx. apply (I x y). right. exact Hx.
+Qed.
+
+Lemma inv_timer_activate : forall i tnew t0 st, inv st ->
+  nth_error (timers st) i = Some t0 -> t_state t0 = Empty ->
+  t_state tnew = Active -> t_uid tnew < next_uid st ->
+  (forall j t, nth_error (timers st) j = Some t -> t_uid t < t_uid tnew) ->
+  ~ gone (out st) 1 (t_uid tnew) ->
+  inv (set_timers (upd_nth i (fun _ => tnew) (timers st)) st).
+Proof.
+  intros i tnew t0 st I Hn He Ha Hu Hf Hg. pose proof I as (I0 & (T1 & T2 & T3) & _ & _ & (_ & Q2 & _) & _).
+  assert (N : forall j t', nth_error (upd_nth i (fun _ => tnew) (timers st)) j = Some t' ->
+              (j <> i /\ nth_error (timers st) j = Some t') \/ (j = i /\ t' = tnew)).
+  { intros j t' H. rewrite nth_upd_nth in H. destruct (Nat.eqb i j) eqn:E.
+    - apply Nat.eqb_eq in E; subst. rewrite Hn in H. cbn in H. inversion H; subst. right. auto.
+    - apply Nat.eqb_neq in E. left. split; [congruence|exact H]. }
+  apply inv_set_timers; [exact I| | |].
+  - split; [|split].
+    + intros j t' H E. destruct (N j t' H) as [[_ A]|[_ ->]]; [eauto|exact Ha].
+    + intros j t' H. destruct (N j t' H) as [[_ A]|[_ ->]]; [eauto|exact Hu].
+    + intros a b ta tb Ha' Hb Sa Sb E.
+      destruct (N a ta Ha') as [[Na A]|[-> ->]]; destruct (N b tb Hb) as [[Nb B]|[-> ->]]; auto.
+      * eauto.
+      * specialize (Hf a ta A). lia.
+      * specialize (Hf b tb B). lia.
+  - intros j H. destruct (Q2 j H) as (t & A & B). assert (j <> i) by (intros ->; congruence).
+    exists t. split; [|exact B]. rewrite nth_upd_nth_other; auto.
+  - intros a (j & t' & A & B & C). cbn in A. destruct (N j t' A) as [[_ A1]|[_ ->]].
+    + left. exists j, t'. auto.
+    + right. subst a. exact Hg.
+Qed.
+
+Lemma timer_slot_spec : forall st, inv st ->
+  inv (snd (timer_slot st)) /\ opframe st (snd (timer_slot st)) /\ sbr st (set_timers (timers st) (snd (timer_slot st))) /\
+  exists t0, nth_error (timers (snd (timer_slot st))) (fst (timer_slot st)) = Some t0 /\ t_state t0 = Empty.
+Proof.
+  intros st I. unfold timer_slot. destruct (find_idx _ (timers st)) as [i|] eqn:F; cbn [fst snd].
+  - split; [exact I|]. split; [apply opframe_refl|]. split; [constructor; reflexivity|].
+    apply find_idx_some in F. destruct F as (t0 & A & B). exists t0. split; [exact A|]. destruct (t_state t0); cbn in B; congruence.
+  - split; [apply inv_timers_grow; exact I|]. split; [apply opframe_set_timers; apply tparked_grow|].
+    split; [constructor; reflexivity|]. exists tslot_zero. split; [|reflexivity]. cbn. rewrite nth_error_app2 by lia.
+    now rewrite Nat.sub_diag.
+Qed.
+
+Lemma timer_add_ok : forall p d k r st, inv st -> inv (snd (timer_add p d k r st)) /\ opframe st (snd (timer_add p d k r st)).
+Proof.
+  intros p d k r st I. unfold timer_add.
+  destruct (timer_slot_spec st I) as (I1 & F1 & _ & (t0 & N0 & E0)). destruct (timer_slot st) as [i s1]. cbn [fst snd] in *.
+  unfold fresh_uid. set (n := next_uid s1). set (s2 := set_next_uid (n + 1) s1).
+  assert (I2 : inv s2) by (apply inv_bump_uid; exact I1).
+  assert (RO2 : rand_ok s2) by (destruct I2 as (_ & _ & _ & _ & _ & _ & _ & X & _); exact X).
+  assert (NZ : (200 <> 0)%nat) by discriminate.
+  destruct (draw_check_spec 200 0 s2 RO2 (or_introl NZ)) as (C0 & RO3 & SB3).
+  destruct (draw_check 200 0 s2) as [c s3]. cbn [fst snd] in *.
+  assert (I3 : inv s3) by (eapply inv_sbr; eauto).
+  set (s4 := emit (EvAdd 1 n p) s3).
+  assert (I4 : inv s4) by (apply inv_emit_neutral; [exact Logic.I|exact I3]).
+  match goal with |- context [upd_nth i (fun _ => ?t) _] => set (tnew := t) end.
+  assert (T4 : timers s4 = timers s1) by (cbn; rewrite (sb_timers _ _ SB3); reflexivity).
+  assert (U4 : next_uid s4 = n + 1) by (cbn; rewrite (sb_uid _ _ SB3); reflexivity).
+  set (s5 := set_timers (upd_nth i (fun _ => tnew) (timers s4)) s4).
+  assert (I5 : inv s5).
+  { apply (inv_timer_activate i tnew t0 s4 I4).
+    - rewrite T4. exact N0.
+    - exact E0.
+    - reflexivity.
+    - rewrite U4. cbn. lia.
+    - intros j t H. rewrite T4 in H. destruct I1 as (_ & (_ & X & _) & _). cbn. apply (X j t H).
+    - cbn [out emit set_out s4 tnew t_uid]. intros Hg. apply (gone_neutral (EvAdd 1 n p)) in Hg; [|exact Logic.I].
+      rewrite (sb_out _ _ SB3) in Hg. change (out s2) with (out s1) in Hg. exact (fresh_not_gone s1 1 I1 Hg). }
+  cbn [snd]. split.
+  - apply inv_set_regs; [exact I5|]. apply inv_r_assoc_set.
+    + destruct I5 as (_ & _ & _ & _ & _ & _ & X & _). exact X.
+    + right. rewrite Z.div_add_l by (unfold TWO32; lia).
+      assert (0 <= Z.of_nat i / TWO32) by (apply Z.div_pos; [lia|unfold TWO32; lia]). lia.
+  - apply (opframe_trans st s1); [exact F1|]. apply (opframe_trans s1 s2); [apply opframe_bump_uid|].
+    apply (opframe_trans s2 s3); [apply opframe_sbr; exact SB3|]. apply (opframe_trans s3 s4); [apply opframe_emit|].
+    apply (opframe_trans s4 s5).
+    + apply opframe_set_timers. intros j [(t & A & B & C) D]. split; [|exact D]. exists t. split; [|auto].
+      assert (j <> i) by (intros ->; rewrite T4, N0 in A; inversion A; subst; congruence).
+      cbn. rewrite nth_upd_nth_other; auto.
+    + apply opframe_same; try reflexivity. exists []. reflexivity.
+Qed.
+
+(* ------------------------------------------------------------------ qb_loop_timer_del *)
+Lemma timer_from_handle_spec : forall h st i t, timer_from_handle h st = Some (i, t) ->
+  nth_error (timers st) i = Some t /\ t_check t = h / TWO32 /\ h <> 0.
+Proof.
+  intros h st i t. unfold timer_from_handle. destruct (h =? 0) eqn:E; [discriminate|]. apply Z.eqb_neq in E.
+  destruct (h / TWO32 =? 0); [discriminate|].
+  destruct (nth_error (timers st) _) as [t'|] eqn:N; [|discriminate].
+  destruct (t_check t' =? h / TWO32) eqn:C; [|discriminate]. intros H; inversion H; subst.
+  apply Z.eqb_eq in C. auto.
+Qed.
+
+Lemma timer_del_ok : forall h st, inv st -> (h = 0 \/ 0 < h / TWO32) ->
+  inv (snd (timer_del h st)) /\ opframe st (snd (timer_del h st)).
+Proof.
+  intros h st I Hh. unfold timer_del.
+  destruct (timer_from_handle h st) as [[i t]|] eqn:TF; [|split; [exact I|apply opframe_refl]].
+  apply timer_from_handle_spec in TF. destruct TF as (N & C & H0).
+  assert (CP : 0 < t_check t) by (destruct Hh; [contradiction|lia]).
+  assert (Common : forall s1, shrinks st s1 -> occ_all (QTimer i) s1 = 0 -> t_state t <> Empty ->
+     let g := fun t => {| t_state := Empty; t_check := t_check t; t_p := t_p t; t_key := t_key t; t_uid := t_uid t; t_exp := None |} in
+     inv (set_timers (upd_nth i g (timers (emit (EvDel 1 (t_uid t)) s1))) (emit (EvDel 1 (t_uid t)) s1)) /\
+     opframe st (set_timers (upd_nth i g (timers (emit (EvDel 1 (t_uid t)) s1))) (emit (EvDel 1 (t_uid t)) s1))).
+  { intros s1 SH Z NE g.
+    assert (I1 : inv s1) by (eapply inv_shrinks; eauto).
+    assert (T1 : timers s1 = timers st) by (apply (sh_timers _ _ SH)).
+    destruct (inv_timer_clear i g s1 I1 Z (fun t _ => conj eq_refl (conj eq_refl eq_refl))) as [I2 NL].
+    change (set_timers (upd_nth i g (timers (emit (EvDel 1 (t_uid t)) s1))) (emit (EvDel 1 (t_uid t)) s1))
+      with (emit (EvDel 1 (t_uid t)) (set_timers (upd_nth i g (timers s1)) s1)).
+    split.
+    - apply inv_emit_del; [exact I2| |].
+      + cbn. rewrite (sh_uid _ _ SH). destruct I as (_ & (_ & X & _) & _). eauto.
+      + apply NL; [rewrite T1; exact N|exact NE].
+    - apply (opframe_trans st s1); [apply opframe_shrinks; exact SH|].
+      apply (opframe_trans s1 (set_timers (upd_nth i g (timers s1)) s1)); [|apply opframe_emit].
+      apply opframe_set_timers. intros j [(t' & A & B & C' & D) E]. split; [|exact E].
+      assert (j <> i) by (intros ->; rewrite T1, N in A; inversion A; subst; lia).
+      exists t'. cbn. rewrite nth_upd_nth_other by auto. auto. }
+  assert (SHR : shrinks st st).
+  { constructor; auto; intros; lia. }
+  destruct (t_state t) eqn:S; cbn [snd].
+  - split; [exact I|apply opframe_refl].
+  - (* JOBLIST *) apply (Common (item_del (t_p t) (QTimer i) st)); [apply shrinks_item_del| |discriminate].
+    apply item_del_clears; [|reflexivity]. destruct I as (_ & _ & _ & _ & X & _). exact X.
+  - split; [exact I|apply opframe_refl].
+  - (* ACTIVE: not on any list *) apply (Common st SHR); [|discriminate].
+    pose proof (occ_all_nonneg (QTimer i) st). destruct (Z.eq_dec (occ_all (QTimer i) st) 0) as [|NZ]; [auto|].
+    destruct (occ_all_in (QTimer i) st ltac:(lia)) as (it & A & B). destruct it; cbn in B; try discriminate.
+    apply Nat.eqb_eq in B; subst. destruct I as (_ & _ & _ & _ & (_ & Q2 & _) & _). destruct (Q2 _ A) as (t' & A' & B').
+    rewrite N in A'. inversion A'; subst. congruence.
+Qed.
+
+(* ------------------------------------------------------------------ changes to the poll table *)
+Lemma live_change_polls : forall st st' (P : Z -> Prop),
+  all_items st' = all_items st -> timers st' = timers st -> sigs st' = sigs st ->
+  (forall a, live_fd st' a -> live_fd st a \/ P a) ->
+  forall k a, live st' k a -> live st k a \/ (k = 2 /\ P a).
+Proof.
+  intros st st' P A T S H k a [[K L]|[[K L]|[[K L]|[K L]]]].
+  - left. left. split; [exact K|]. unfold live_job in *. rewrite A in L. exact L.
+  - left. right; left. split; [exact K|]. unfold live_timer in *. rewrite A, T in L. exact L.
+  - destruct (H a L) as [L'|L']; [left; right; right; left; auto|right; auto].
+  - left. right; right; right. split; [exact K|]. unfold live_sig in *. rewrite S in L. exact L.
+Qed.
+Lemma inv_set_polls : forall ps st, inv st ->
+  inv_p ps (next_uid st) ->
+  (forall i, In (QFd i) (all_items st) -> exists e, nth_error ps i = Some e /\ p_state e = Joblist) ->
+  (forall a, live_fd (set_polls ps st) a -> live_fd st a \/ ~ gone (out st) 2 a) ->
+  inv (set_polls ps st).
+Proof.
+  intros ps st (I0 & IT & IP & IS & IQ & IG & IR & IRA & IF) NP NQ NL. unfold inv.
+  change (next_uid (set_polls ps st)) with (next_uid st). change (timers (set_polls ps st)) with (timers st).
+  change (sigs (set_polls ps st)) with (sigs st). change (regs (set_polls ps st)) with (regs st).
+  change (fx (set_polls ps st)) with (fx st). change (polls (set_polls ps st)) with ps.
+  split; [exact I0|]. split; [exact IT|]. split; [exact NP|]. split; [exact IS|].
+  split; [|split; [|split; [exact IR|split; [exact IRA|exact IF]]]].
+  - destruct IQ as (Q1 & Q2 & Q3 & Q4 & Q5 & Q6 & Q7). unfold inv_q.
+    split; [exact Q1|]. split; [exact Q2|]. split; [exact NQ|]. split; [exact Q4|]. split; [exact Q5|]. split; [exact Q6|exact Q7].
+  - destruct IG as (G1 & G2 & G3). split; [exact G1|]. split; [|exact G3].
+    intros k a Hg Hl.
+    destruct (live_change_polls st (set_polls ps st) (fun a => ~ gone (out st) 2 a) eq_refl eq_refl eq_refl NL k a Hl) as [H|[K H]].
+    + exact (G2 k a Hg H).
+    + subst k. exact (H Hg).
+Qed.
+Lemma opframe_set_polls : forall ps st,
+  (forall i u, pparked st i u -> pparked (set_polls ps st) i u) -> opframe st (set_polls ps st).
+Proof.
+  intros ps st H. constructor.
+  - intros; apply Z.le_refl.
+  - intros i P. exact P.
+  - exact H.
+  - intros S; exact S.
+  - cbn; lia.
+  - exists []. reflexivity.
+Qed.
+
+(* a slot-wise transformation of the table that creates no registration *)
+Definition ptrans (st : state) (ps' : list pslot) : Prop :=
+  (forall j e', nth_error ps' j = Some e' -> exists e, nth_error (polls st) j = Some e /\ p_uid e' < next_uid st /\
+      (plive e' -> plive e /\ p_uid e' = p_uid e) /\ (p_fn e' = true -> p_state e' <> Empty)) /\
+  (forall j e, nth_error (polls st) j = Some e -> p_state e = Joblist -> In (QFd j) (all_items st) ->
+      exists e', nth_error ps' j = Some e' /\ p_state e' = Joblist).
+Lemma inv_ptrans : forall ps' st, inv st -> ptrans st ps' -> inv (set_polls ps' st) /\
+  (forall a, live_fd (set_polls ps' st) a -> exists j e e', nth_error (polls st) j = Some e /\ nth_error ps' j = Some e' /\
+                                                        plive e /\ plive e' /\ p_uid e = a).
+Proof.
+  intros ps' st I [A B]. pose proof I as (I0 & _ & (P1 & P2 & P3) & _ & (_ & _ & Q3 & _) & _).
+  assert (L : forall a, live_fd (set_polls ps' st) a -> exists j e e', nth_error (polls st) j = Some e /\ nth_error ps' j = Some e' /\
+                                                        plive e /\ plive e' /\ p_uid e = a).
+  { intros a (j & e' & N & U & Lv). cbn in N. destruct (A j e' N) as (e & N0 & _ & C & _). destruct (C Lv) as [C1 C2].
+    exists j, e, e'. repeat split; auto. congruence. }
+  split; [|exact L].
+  apply inv_set_polls; [exact I| | |].
+  - split; [|split].
+    + intros j e' N. destruct (A j e' N) as (e & _ & U & _). exact U.
+    + intros a b ea eb Na Nb La Lb E. destruct (A a ea Na) as (e1 & N1 & _ & C1 & _). destruct (A b eb Nb) as (e2 & N2 & _ & C2 & _).
+      destruct (C1 La) as [L1 U1]. destruct (C2 Lb) as [L2 U2]. apply (P2 a b e1 e2); auto. congruence.
+    + intros j e' N. destruct (A j e' N) as (e & _ & _ & _ & F). exact F.
+  - intros j H. destruct (Q3 j H) as (e & N & S). exact (B j e N S H).
+  - intros a H. left. destruct (L a H) as (j & e & e' & N & _ & Lv & _ & U). exists j, e. auto.
+Qed.
+
+(* one slot changed *)
+Lemma ptrans_upd : forall i g st, inv st ->
+  (forall e, nth_error (polls st) i = Some e -> p_uid (g e) < next_uid st /\ (plive (g e) -> plive e /\ p_uid (g e) = p_uid e) /\
+             (p_fn (g e) = true -> p_state (g e) <> Empty) /\
+             (occ_all (QFd i) st = 0 \/ (p_state e = Joblist -> p_state (g e) = Joblist))) ->
+  ptrans st (upd_nth i g (polls st)).
+Proof.
+  intros i g st I G. pose proof I as (I0 & _ & (P1 & P2 & P3) & _).
+  split.
+  - intros j e' N. rewrite nth_upd_nth in N. destruct (Nat.eqb i j) eqn:E.
+    + apply Nat.eqb_eq in E; subst. destruct (nth_error (polls st) j) as [e|] eqn:N0; [|discriminate]. cbn in N. inversion N; subst.
+      exists e. split; [reflexivity|]. destruct (G e eq_refl) as (A & B & C & _). auto.
+    + exists e'. split; [exact N|]. split; [eauto|]. split; [auto|]. eauto.
+  - intros j e N S Hin. rewrite nth_upd_nth, N. destruct (Nat.eqb i j) eqn:E; cbn.
+    + apply Nat.eqb_eq in E; subst. exists (g e). split; [reflexivity|]. destruct (G e N) as (_ & _ & _ & [Z|Z]); [|auto].
+      apply in_occ_all in Hin. lia.
+    + exists e. auto.
+Qed.
+
+Lemma pparked_upd : forall i g st j u,
+  (forall e, nth_error (polls st) i = Some e -> (p_state e = Joblist \/ p_state e = Deleted) ->
+             p_uid (g e) = p_uid e /\ (p_state (g e) = Joblist \/ p_state (g e) = Deleted)) ->
+  pparked st j u -> pparked (set_polls (upd_nth i g (polls st)) st) j u.
+Proof.
+  intros i g st j u G [(e & N & U & S) Z]. split; [|exact Z]. cbn. rewrite nth_upd_nth, N. destruct (Nat.eqb i j) eqn:E; cbn.
+  - apply Nat.eqb_eq in E; subst. destruct (G e N S) as [A B]. exists (g e). split; [reflexivity|]. split; [congruence|exact B].
+  - exists e. auto.
+Qed.
+
+(* growing the table by a zeroed slot *)
+Lemma inv_polls_grow : forall st, inv st -> inv (set_polls (polls st ++ [pslot_zero]) st).
+Proof.
+  intros st I. pose proof I as (I0 & _ & (P1 & P2 & P3) & _ & (_ & _ & Q3 & _) & _).
+  apply inv_set_polls; [exact I| | |].
+  - split; [|split].
+    + intros i e H. apply nth_error_app_new in H. destruct H as [H|[_ ->]]; [eauto|cbn; lia].
+    + intros i j ei ej Hi Hj Li Lj E. apply nth_error_app_new in Hi. apply nth_error_app_new in Hj.
+      destruct Hi as [Hi|[_ ->]]; [|destruct Li as [X|X]; discriminate X]. destruct Hj as [Hj|[_ ->]]; [|destruct Lj as [X|X]; discriminate X]. eauto.
+    + intros i e H. apply nth_error_app_new in H. destruct H as [H|[_ ->]]; [eauto|cbn; discriminate].
+  - intros i H. destruct (Q3 i H) as (e & A & B). exists e. split; [|exact B].
+    rewrite nth_error_app1; [exact A|]. apply nth_error_Some. congruence.
+  - intros a (i & e & A & B & C). left. cbn in A. apply nth_error_app_new in A. destruct A as [A|[_ ->]].
+    + exists i, e. auto.
+    + destruct C as [C|C]; discriminate C.
+Qed.
+Lemma pparked_grow : forall st i u, pparked st i u -> pparked (set_polls (polls st ++ [pslot_zero]) st) i u.
+Proof.
+  intros st i u [(e & A & B) C]. split; [|exact C]. exists e. split; [|exact B]. cbn.
+  rewrite nth_error_app1; [exact A|]. apply nth_error_Some. congruence.
+Qed.
+
+(* an EMPTY slot becomes a new registration *)
+Lemma inv_poll_activate : forall i enew e0 st, inv st ->
+  nth_error (polls st) i = Some e0 -> p_state e0 = Empty ->
+  p_state enew = Active -> p_uid enew < next_uid st ->
+  (forall j e, nth_error (polls st) j = Some e -> p_uid e < p_uid enew) ->
+  ~ gone (out st) 2 (p_uid enew) ->
+  inv (set_polls (upd_nth i (fun _ => enew) (polls st)) st).
+Proof.
+  intros i enew e0 st I Hn He Ha Hu Hf Hg. pose proof I as (I0 & _ & (P1 & P2 & P3) & _ & (_ & _ & Q3 & _) & _).
+  assert (N : forall j e', nth_error (upd_nth i (fun _ => enew) (polls st)) j = Some e' ->
+              (j <> i /\ nth_error (polls st) j = Some e') \/ (j = i /\ e' = enew)).
+  { intros j e' H. rewrite nth_upd_nth in H. destruct (Nat.eqb i j) eqn:E.
+    - apply Nat.eqb_eq in E; subst. rewrite Hn in H. cbn in H. inversion H; subst. right. auto.
+    - apply Nat.eqb_neq in E. left. split; [congruence|exact H]. }
+  apply inv_set_polls; [exact I| | |].
+  - split; [|split].
+    + intros j e' H. destruct (N j e' H) as [[_ A]|[_ ->]]; [eauto|exact Hu].
+    + intros a b ea eb Ha' Hb La Lb E.
+      destruct (N a ea Ha') as [[Na A]|[-> ->]]; destruct (N b eb Hb) as [[Nb B]|[-> ->]]; auto.
+      * eauto.
+      * specialize (Hf a ea A). lia.
+      * specialize (Hf b eb B). lia.
+    + intros j e' H F. destruct (N j e' H) as [[_ A]|[_ ->]]; [eauto|congruence].
+  - intros j H. destruct (Q3 j H) as (e & A & B). assert (j <> i) by (intros ->; congruence).
+    exists e. split; [|exact B]. rewrite nth_upd_nth_other; auto.
+  - intros a (j & e' & A & B & C). cbn in A. destruct (N j e' A) as [[_ A1]|[_ ->]].
+    + left. exists j, e'. auto.
+    + right. subst a. exact Hg.
+Qed.
+
+(* the kernel's interest list is not read by the invariant *)
+Lemma opframe_same_core : forall st st', same_core st st' -> stop st' = stop st -> opframe st st'.
+Proof. intros st st' [L T P S' U O R F RA RN] S. apply opframe_same; auto. exists []. now rewrite O. Qed.
+Lemma k_add_same : forall a b c st, same_core st (snd (k_add a b c st)) /\ stop (snd (k_add a b c st)) = stop st.
+Proof. intros. unfold k_add. destruct (kfind _ _); cbn; split; try reflexivity; constructor; reflexivity. Qed.
+Lemma k_mod_same : forall a b c st, same_core st (snd (k_mod a b c st)) /\ stop (snd (k_mod a b c st)) = stop st.
+Proof. intros. unfold k_mod. destruct (kfind _ _); cbn; split; try reflexivity; constructor; reflexivity. Qed.
+Lemma k_del_same : forall a st, same_core st (snd (k_del a st)) /\ stop (snd (k_del a st)) = stop st.
+Proof. intros. unfold k_del. destruct (kfind _ _); cbn; split; try reflexivity; constructor; reflexivity. Qed.
+
+(* ------------------------------------------------------------------ qb_loop_poll_add (and the signal pipe's entry) *)
+Lemma poll_slot_spec : forall st, inv st ->
+  inv (snd (poll_slot st)) /\ opframe st (snd (poll_slot st)) /\ next_uid (snd (poll_slot st)) = next_uid st /\
+  out (snd (poll_slot st)) = out st /\
+  exists e0, nth_error (polls (snd (poll_slot st))) (fst (poll_slot st)) = Some e0 /\ p_state e0 = Empty.
+Proof.
+  intros st I. unfold poll_slot. destruct (find_idx _ (polls st)) as [i|] eqn:F; cbn [fst snd].
+  - split; [exact I|]. split; [apply opframe_refl|]. split; [reflexivity|]. split; [reflexivity|].
+    apply find_idx_some in F. destruct F as (e0 & A & B). exists e0. split; [exact A|]. destruct (p_state e0); cbn in B; congruence.
+  - split; [apply inv_polls_grow; exact I|]. split; [apply opframe_set_polls; apply pparked_grow|].
+    split; [reflexivity|]. split; [reflexivity|]. exists pslot_zero. split; [|reflexivity]. cbn. rewrite nth_error_app2 by lia.
+    now rewrite Nat.sub_diag.
+Qed.
+
+Lemma poll_add_gen_ok : forall g p fd ev key st, inv st ->
+  inv (snd (poll_add_gen g p fd ev key st)) /\ opframe st (snd (poll_add_gen g p fd ev key st)).
+Proof.
+  intros g p fd ev key st I. unfold poll_add_gen.
+  destruct (poll_slot_spec st I) as (I1 & F1 & U1 & O1 & (e0 & N0 & E0)). destruct (poll_slot st) as [i s1]. cbn [fst snd] in *.
+  unfold fresh_uid. set (n := next_uid s1). set (s2 := set_next_uid (n + 1) s1).
+  assert (I2 : inv s2) by (apply inv_bump_uid; exact I1).
+  assert (RO2 : rand_ok s2) by (destruct I2 as (_ & _ & _ & _ & _ & _ & _ & X & _); exact X).
+  destruct (draw_check_p_spec 200 0 s2 RO2) as (RO3 & SB3).
+  destruct (draw_check_p 200 0 s2) as [c s3]. cbn [fst snd] in *.
+  assert (I3 : inv s3) by (eapply inv_sbr; eauto).
+  match goal with |- context [k_add ?a ?b ?d s3] => destruct (k_add_same a b d s3) as [SC4 ST4]; destruct (k_add a b d s3) as [res s4] end.
+  cbn [fst snd] in *.
+  assert (I4 : inv s4) by (eapply inv_same_core; eauto).
+  assert (P4 : polls s4 = polls s1) by (rewrite (sc_polls _ _ SC4), (sb_polls _ _ SB3); reflexivity).
+  assert (U4 : next_uid s4 = n + 1) by (rewrite (sc_uid _ _ SC4), (sb_uid _ _ SB3); reflexivity).
+  assert (O4 : out s4 = out s1) by (rewrite (sc_out _ _ SC4), (sb_out _ _ SB3); reflexivity).
+  assert (F4 : opframe st s4).
+  { apply (opframe_trans st s1); [exact F1|]. apply (opframe_trans s1 s2); [apply opframe_bump_uid|].
+    apply (opframe_trans s2 s3); [apply opframe_sbr; exact SB3|]. apply opframe_same_core; auto. }
+  assert (PK : forall s (gg : pslot -> pslot), polls s = polls s1 -> (forall x, occ_all x s = occ_all x s4) ->
+               forall j u, pparked s4 j u -> pparked (set_polls (upd_nth i gg (polls s)) s) j u).
+  { intros s gg Ps Os j u [(e & A & B & C) D]. split; [|unfold occ_all in *; cbn; rewrite <- D; apply Os].
+    assert (j <> i) by (intros ->; rewrite P4, N0 in A; inversion A; subst; destruct C; congruence).
+    exists e. cbn. rewrite nth_upd_nth_other by auto. rewrite Ps, <- P4. auto. }
+  destruct (res =? 0) eqn:R; cbn [snd].
+  - (* added *)
+    set (s5 := emit (EvAdd 2 n p) s4).
+    assert (I5 : inv s5) by (apply inv_emit_neutral; [exact Logic.I|exact I4]).
+    match goal with |- context [upd_nth i ?f _] => set (f0 := f) end.
+    set (enew := f0 e0).
+    assert (EQ : upd_nth i f0 (polls s5) = upd_nth i (fun _ => enew) (polls s5)).
+    { clear. unfold enew, f0. generalize (polls s5). intros l. revert i. induction l; destruct i; cbn; auto; f_equal; auto. }
+    rewrite EQ. split.
+    + apply (inv_poll_activate i enew e0 s5 I5).
+      * change (polls s5) with (polls s4). rewrite P4. exact N0.
+      * exact E0.
+      * reflexivity.
+      * change (next_uid s5) with (next_uid s4). rewrite U4. cbn. lia.
+      * intros j e H. change (polls s5) with (polls s4) in H. rewrite P4 in H. destruct I1 as (_ & _ & (X & _) & _). cbn. apply (X j e H).
+      * cbn [out emit set_out s5 enew f0 p_uid]. intros Hg. apply (gone_neutral (EvAdd 2 n p)) in Hg; [|exact Logic.I].
+        rewrite O4 in Hg. exact (fresh_not_gone s1 2 I1 Hg).
+    + apply (opframe_trans st s4); [exact F4|]. apply (opframe_trans s4 s5); [apply opframe_emit|].
+      apply opframe_set_polls. intros j u H. apply (PK s5 (fun _ => enew)); auto.
+  - (* the driver refused: the slot goes back to EMPTY (entirely cleared once repaired) *)
+    match goal with |- context [upd_nth i ?f _] => set (f0 := f) end.
+    assert (TR : ptrans s4 (upd_nth i f0 (polls s4))).
+    { apply ptrans_upd; [exact I4|]. intros e H. rewrite P4, N0 in H. inversion H; subst e.
+      assert (PF : p_fn e0 = false).
+      { destruct I1 as (_ & _ & (_ & _ & X) & _). destruct (p_fn e0) eqn:PF; [|reflexivity]. exfalso. exact (X i e0 N0 PF E0). }
+      unfold f0. destruct (fx_polladd (fx s4)); cbn.
+      - split; [destruct I4 as (X & _); lia|]. split; [intros [X|X]; discriminate X|]. split; [discriminate|]. right. congruence.
+      - split; [rewrite U4; lia|]. split; [intros [X|X]; discriminate X|]. split; [congruence|]. right. congruence. }
+    destruct (inv_ptrans _ _ I4 TR) as [I5 _]. split; [exact I5|].
+    apply (opframe_trans st s4); [exact F4|]. apply opframe_set_polls. intros j u H. apply (PK s4 f0); auto.
+Qed.
+
+(* ------------------------------------------------------------------ qb_loop_poll_mod *)
+Lemma poll_mod_ok : forall p fd ev key st, inv st ->
+  inv (snd (poll_mod p fd ev key st)) /\ opframe st (snd (poll_mod p fd ev key st)).
+Proof.
+  intros p fd ev key st I. unfold poll_mod.
+  destruct (find_idx _ (polls st)) as [i|]; [|split; [exact I|apply opframe_refl]].
+  destruct (nth_error (polls st) i) as [e|] eqn:N; [|split; [exact I|apply opframe_refl]].
+  destruct (_ || _); [split; [exact I|apply opframe_refl]|].
+  assert (K : exists res s1, (if p_events e =? ev then (0, st) else k_mod fd (poll_to_epoll ev) (p_check e * TWO32 + Z.of_nat i) st) = (res, s1)
+              /\ same_core st s1 /\ stop s1 = stop st).
+  { destruct (p_events e =? ev).
+    - exists 0, st. split; [reflexivity|]. split; [apply same_core_refl|reflexivity].
+    - destruct (k_mod_same fd (poll_to_epoll ev) (p_check e * TWO32 + Z.of_nat i) st) as [A B].
+      destruct (k_mod fd (poll_to_epoll ev) (p_check e * TWO32 + Z.of_nat i) st) as [res s1]. exists res, s1. auto. }
+  destruct K as (res & s1 & -> & SC & ST). cbn [snd].
+  assert (I1 : inv s1) by (eapply inv_same_core; eauto).
+  match goal with |- context [upd_nth i ?f _] => set (f0 := f) end.
+  assert (TR : ptrans s1 (upd_nth i f0 (polls s1))).
+  { apply ptrans_upd; [exact I1|]. intros e' H. unfold f0; cbn. destruct I1 as (_ & _ & (X & _ & Y) & _).
+    split; [eauto|]. split; [auto|]. split; [eauto|]. right. auto. }
+  destruct (inv_ptrans _ _ I1 TR) as [I2 _]. split; [exact I2|].
+  apply (opframe_trans st s1); [apply opframe_same_core; auto|]. apply opframe_set_polls.
+  intros j u H. apply pparked_upd; [|exact H]. intros e' _ S. unfold f0; cbn. auto.
+Qed.
+
+(* ------------------------------------------------------------------ qb_loop_poll_del *)
+Lemma fd_not_live_after : forall i g st e, inv st -> ptrans st (upd_nth i g (polls st)) ->
+  nth_error (polls st) i = Some e -> plive e -> ~ plive (g e) ->
+  ~ live (set_polls (upd_nth i g (polls st)) st) 2 (p_uid e).
+Proof.
+  intros i g st e I TR N LE NL. destruct (inv_ptrans _ _ I TR) as [_ L].
+  intros [[K _]|[[K _]|[[_ H]|[K _]]]]; try discriminate K.
+  destruct (L _ H) as (j & eo & en & N1 & N2 & L1 & L2 & U).
+  assert (j = i) by (destruct I as (_ & _ & (_ & P2 & _) & _); apply (P2 j i eo e N1 N L1 LE U)).
+  subst j. rewrite nth_upd_nth, Nat.eqb_refl, N in N2. cbn in N2. inversion N2; subst. exact (NL L2).
+Qed.
+
+Lemma mark_deleted_ptrans : forall i st, inv st -> occ_all (QFd i) st = 0 -> ptrans st (upd_nth i mark_deleted (polls st)).
+Proof.
+  intros i st I Z. apply ptrans_upd; [exact I|]. intros e N. cbn.
+  destruct I as (_ & _ & (X & _) & _). split; [eauto|]. split; [intros [Y|Y]; discriminate Y|]. split; [discriminate|]. left. exact Z.
+Qed.
+Lemma qfd_absent_if_active : forall i e st, inv st -> nth_error (polls st) i = Some e -> p_state e <> Joblist -> occ_all (QFd i) st = 0.
+Proof.
+  intros i e st I N S. pose proof (occ_all_nonneg (QFd i) st). destruct (Z.eq_dec (occ_all (QFd i) st) 0) as [|NZ]; [auto|].
+  destruct (occ_all_in (QFd i) st ltac:(lia)) as (it & A & B). destruct it; cbn in B; try discriminate.
+  apply Nat.eqb_eq in B; subst. destruct I as (_ & _ & _ & _ & (_ & _ & Q3 & _) & _). destruct (Q3 _ A) as (e' & A' & B').
+  rewrite N in A'. inversion A'; subst. congruence.
+Qed.
+
+Lemma poll_del_ok : forall fd st, inv st -> inv (snd (poll_del fd st)) /\ opframe st (snd (poll_del fd st)).
+Proof.
+  intros fd st I. unfold poll_del.
+  destruct (find_idx _ (polls st)) as [i|]; [|split; [exact I|apply opframe_refl]].
+  destruct (nth_error (polls st) i) as [e|] eqn:N; [|split; [exact I|apply opframe_refl]].
+  assert (Common : forall s1, shrinks st s1 -> occ_all (QFd i) s1 = 0 -> plive e ->
+     inv (snd (let '(res, s) := k_del fd (emit (EvDel 2 (p_uid e)) s1) in (res, set_polls (upd_nth i mark_deleted (polls s)) s))) /\
+     opframe st (snd (let '(res, s) := k_del fd (emit (EvDel 2 (p_uid e)) s1) in (res, set_polls (upd_nth i mark_deleted (polls s)) s)))).
+  { intros s1 SH Z LE.
+    assert (I1 : inv s1) by (eapply inv_shrinks; eauto).
+    assert (P1 : polls s1 = polls st) by (apply (sh_polls _ _ SH)).
+    assert (N1 : nth_error (polls s1) i = Some e) by (rewrite P1; exact N).
+    pose proof (mark_deleted_ptrans i s1 I1 Z) as TR.
+    destruct (inv_ptrans _ _ I1 TR) as [I2 _].
+    set (s2 := set_polls (upd_nth i mark_deleted (polls s1)) s1).
+    assert (NLv : ~ live s2 2 (p_uid e)).
+    { apply (fd_not_live_after i mark_deleted s1 e I1 TR N1 LE). cbn. intros [X|X]; discriminate X. }
+    assert (I3 : inv (emit (EvDel 2 (p_uid e)) s2)).
+    { apply inv_emit_del; [exact I2| |exact NLv]. cbn. rewrite (sh_uid _ _ SH). destruct I as (_ & _ & (X & _) & _). eauto. }
+    assert (EQ : snd (let '(res, s) := k_del fd (emit (EvDel 2 (p_uid e)) s1) in (res, set_polls (upd_nth i mark_deleted (polls s)) s))
+                 = snd (k_del fd (emit (EvDel 2 (p_uid e)) s2))).
+    { unfold k_del. cbn [kset emit set_out]. change (kset s2) with (kset s1). destruct (kfind fd (kset s1)); reflexivity. }
+    rewrite EQ. destruct (k_del_same fd (emit (EvDel 2 (p_uid e)) s2)) as [SC ST].
+    split; [eapply inv_same_core; eauto|].
+    apply (opframe_trans st s1); [apply opframe_shrinks; exact SH|].
+    apply (opframe_trans s1 s2).
+    - apply opframe_set_polls. intros j u H. apply pparked_upd; [|exact H]. intros e' _ _. cbn. auto.
+    - apply (opframe_trans s2 (emit (EvDel 2 (p_uid e)) s2)); [apply opframe_emit|apply opframe_same_core; auto]. }
+  assert (SHR : shrinks st st) by (constructor; auto; intros; lia).
+  destruct (p_state e) eqn:S; cbn [snd].
+  - split; [exact I|apply opframe_refl].
+  - (* JOBLIST *) apply (Common (item_del (p_p e) (QFd i) st)); [apply shrinks_item_del| |right; exact S].
+    apply item_del_clears; [|reflexivity]. destruct I as (_ & _ & _ & _ & X & _). exact X.
+  - split; [exact I|apply opframe_refl].
+  - (* ACTIVE *) apply (Common st SHR); [|left; exact S]. apply (qfd_absent_if_active i e st I N). congruence.
+Qed.
+
+(* ------------------------------------------------------------------ signals *)
+Lemma inv_set_sigs : forall ss st, inv st ->
+  inv_s ss (next_uid st) ->
+  (forall u f g k, In (QSig u f g k) (all_items st) -> exists s, In s ss /\ s_id s = f) ->
+  (forall a, (exists s, In s ss /\ s_id s = a) -> live_sig st a \/ ~ gone (out st) 3 a) ->
+  inv (set_sigs ss st).
+Proof.
+  intros ss st (I0 & IT & IP & IS & IQ & IG & IR & IRA & IF) NS NQ NL. unfold inv.
+  change (next_uid (set_sigs ss st)) with (next_uid st). change (timers (set_sigs ss st)) with (timers st).
+  change (polls (set_sigs ss st)) with (polls st). change (regs (set_sigs ss st)) with (regs st).
+  change (fx (set_sigs ss st)) with (fx st). change (sigs (set_sigs ss st)) with ss.
+  split; [exact I0|]. split; [exact IT|]. split; [exact IP|]. split; [exact NS|].
+  split; [|split; [|split; [exact IR|split; [exact IRA|exact IF]]]].
+  - destruct IQ as (Q1 & Q2 & Q3 & Q4 & Q5 & Q6 & Q7). unfold inv_q.
+    split; [exact Q1|]. split; [exact Q2|]. split; [exact Q3|]. split; [exact NQ|]. split; [exact Q5|]. split; [exact Q6|exact Q7].
+  - destruct IG as (G1 & G2 & G3). split; [exact G1|]. split; [|exact G3].
+    intros k a Hg [[K L]|[[K L]|[[K L]|[K L]]]].
+    + apply (G2 k a Hg). left. auto.
+    + apply (G2 k a Hg). right; left. auto.
+    + apply (G2 k a Hg). right; right; left. auto.
+    + destruct (NL a L) as [H|H]; [apply (G2 k a Hg); right; right; right; auto|subst k; exact (H Hg)].
+Qed.
+Lemma opframe_set_sigs : forall ss st, opframe st (set_sigs ss st).
+Proof. intros. apply opframe_same; try reflexivity. exists []. reflexivity. Qed.
+
+Lemma NoDup_app_one : forall A (l : list A) x, NoDup l -> ~ In x l -> NoDup (l ++ [x]).
+Proof.
+  induction l; cbn; intros x H N; [constructor; [tauto|constructor]|].
+  inversion H; subst. constructor.
+  - intros X. apply in_app_or in X. destruct X as [X|[X|[]]]; [tauto|]. subst. tauto.
+  - apply IHl; tauto.
+Qed.
+Lemma signal_add_ok : forall p g k r st, inv st -> inv (snd (signal_add p g k r st)) /\ opframe st (snd (signal_add p g k r st)).
+Proof.
+  intros p g k r st I. unfold signal_add, fresh_uid. cbn [snd].
+  set (n := next_uid st). set (s1 := set_next_uid (n + 1) st).
+  assert (I1 : inv s1) by (apply inv_bump_uid; exact I).
+  set (s2 := emit (EvAdd 3 n p) s1).
+  assert (I2 : inv s2) by (apply inv_emit_neutral; [exact Logic.I|exact I1]).
+  set (s3 := set_sigs (sigs s2 ++ [Build_sigreg n g p k]) s2).
+  assert (I3 : inv s3).
+  { pose proof I as (_ & _ & _ & (S1 & S2) & (_ & _ & _ & Q4 & _) & _).
+    apply inv_set_sigs; [exact I2| | |].
+    - split.
+      + change (sigs s2) with (sigs st). rewrite map_app. cbn. apply NoDup_app_one; [exact S1|].
+        intros H. apply in_map_iff in H. destruct H as (s & A & B). specialize (S2 s B). unfold n in *. lia.
+      + intros s H. change (sigs s2) with (sigs st) in H. apply in_app_or in H. destruct H as [H|[<-|[]]]; cbn.
+        * specialize (S2 s H). unfold n in *. lia.
+        * lia.
+    - intros u f g' k' H. destruct (Q4 u f g' k' H) as (s & A & B). exists s. split; [apply in_or_app; left; exact A|exact B].
+    - intros a (s & A & B). change (sigs s2) with (sigs st) in A. apply in_app_or in A. destruct A as [A|[<-|[]]].
+      + left. exists s. auto.
+      + right. cbn in B. subst a. cbn [out s2 emit set_out]. intros Hg. apply (gone_neutral (EvAdd 3 n p)) in Hg; [|exact Logic.I].
+        exact (fresh_not_gone st 3 I Hg). }
+  split.
+  - eapply inv_same_core; [|exact I3]. constructor; reflexivity.
+  - apply (opframe_trans st s1); [apply opframe_bump_uid|]. apply (opframe_trans s1 s2); [apply opframe_emit|].
+    apply (opframe_trans s2 s3); [apply opframe_set_sigs|]. apply opframe_same; try reflexivity. exists []. reflexivity.
+Qed.
+
+Lemma flag_uaf_ok : forall w st, inv st -> inv (flag_uaf w st) /\ opframe st (flag_uaf w st).
+Proof.
+  intros w st I. unfold flag_uaf. split.
+  - apply inv_emit_neutral; [exact Logic.I|]. eapply inv_same_core; [|exact I]. constructor; reflexivity.
+  - apply opframe_same; try reflexivity. exists [EvUaf w]. reflexivity.
+Qed.
+
+Lemma sig_find_spec : forall h st s, sig_find h st = Some s -> In s (sigs st) /\ s_id s = h.
+Proof. intros h st s H. unfold sig_find in H. apply find_some in H. destruct H as [A B]. apply Z.eqb_eq in B. auto. Qed.
+
+Lemma signal_mod_ok : forall p g k h st, inv st -> inv (snd (signal_mod p g k h st)) /\ opframe st (snd (signal_mod p g k h st)).
+Proof.
+  intros p g k h st I. unfold signal_mod. destruct (h =? 0); [split; [exact I|apply opframe_refl]|].
+  destruct (sig_find h st) as [s|] eqn:F; cbn [snd]; [|apply flag_uaf_ok; exact I].
+  split; [|apply opframe_set_sigs].
+  pose proof I as (_ & _ & _ & (S1 & S2) & (_ & _ & _ & Q4 & _) & _).
+  assert (M : map s_id (map (fun s0 => if s_id s0 =? h then Build_sigreg h g p k else s0) (sigs st)) = map s_id (sigs st)).
+  { rewrite map_map. apply map_ext. intros a. destruct (s_id a =? h) eqn:E; [apply Z.eqb_eq in E; cbn; auto|reflexivity]. }
+  assert (IDS : forall a, (exists s0, In s0 (map (fun s0 => if s_id s0 =? h then Build_sigreg h g p k else s0) (sigs st)) /\ s_id s0 = a)
+                          <-> live_sig st a).
+  { intros a. unfold live_sig. split.
+    - intros (s0 & A & B). assert (In a (map s_id (sigs st))) by (rewrite <- M; apply in_map_iff; eauto).
+      apply in_map_iff in H. destruct H as (s1 & C & D). eauto.
+    - intros (s0 & A & B). assert (In a (map s_id (sigs st))) by (apply in_map_iff; eauto).
+      rewrite <- M in H. apply in_map_iff in H. destruct H as (s1 & C & D). eauto. }
+  apply inv_set_sigs; [exact I| | |].
+  - split; [rewrite M; exact S1|]. intros s0 H. assert (In (s_id s0) (map s_id (sigs st))) by (rewrite <- M; apply in_map; exact H).
+    apply in_map_iff in H0. destruct H0 as (s1 & C & D). rewrite <- C. auto.
+  - intros u f g' k' H. apply IDS. eauto.
+  - intros a H. left. apply IDS. exact H.
+Qed.
+
+(* the repaired qb_loop_signal_del *)
+Lemma jobq_purge : forall h p st q,
+  jobq (lv (purge_clones h p st) q) = (if prio_eqb q p then filter (fun it => negb (is_clone_of h it)) (jobq (lv st q)) else jobq (lv st q)) /\
+  wait (lv (purge_clones h p st) q) = wait (lv st q).
+Proof.
+  intros. unfold purge_clones, upd_level, set_lv. cbn. destruct (prio_eqb q p) eqn:E; [|auto].
+  apply prio_eqb_eq in E; subst. cbn. auto.
+Qed.
+Definition purge_all (h : Z) (st : state) : state := purge_clones h High (purge_clones h Med (purge_clones h Low st)).
+Lemma purge_all_lists : forall h st q,
+  jobq (lv (purge_all h st) q) = filter (fun it => negb (is_clone_of h it)) (jobq (lv st q)) /\
+  wait (lv (purge_all h st) q) = wait (lv st q).
+Proof.
+  intros. unfold purge_all.
+  destruct (jobq_purge h High (purge_clones h Med (purge_clones h Low st)) q) as [A1 B1].
+  destruct (jobq_purge h Med (purge_clones h Low st) q) as [A2 B2].
+  destruct (jobq_purge h Low st q) as [A3 B3].
+  rewrite A1, B1, A2, B2, A3, B3. destruct q; cbn; auto.
+Qed.
+Lemma shrinks_purge_all : forall h st, shrinks st (purge_all h st).
+Proof.
+  intros h st. constructor; try reflexivity.
+  - intros x. rewrite !occ_all_split.
+    destruct (purge_all_lists h st High) as [-> ->]. destruct (purge_all_lists h st Med) as [-> ->].
+    destruct (purge_all_lists h st Low) as [-> ->].
+    pose proof (occ_filter_le x (fun it => negb (is_clone_of h it)) (jobq (lv st High))).
+    pose proof (occ_filter_le x (fun it => negb (is_clone_of h it)) (jobq (lv st Med))).
+    pose proof (occ_filter_le x (fun it => negb (is_clone_of h it)) (jobq (lv st Low))). lia.
+  - intros it H. apply in_all_items in H. destruct H as (q & H). apply in_all_items. exists q.
+    destruct (purge_all_lists h st q) as [A B]. rewrite A, B in H. destruct H as [H|H]; [left|right; exact H].
+    apply filter_In in H. tauto.
+  - intros q it H. destruct (purge_all_lists h st q) as [_ B]. rewrite B in H. exact H.
+Qed.
+Lemma purge_all_clean : forall h st u g k, inv st -> ~ In (QSig u h g k) (all_items (purge_all h st)).
+Proof.
+  intros h st u g k I H. apply in_all_items in H. destruct H as (q & H).
+  destruct (purge_all_lists h st q) as [A B]. rewrite A, B in H. destruct H as [H|H].
+  - apply filter_In in H. destruct H as [_ H]. cbn in H. rewrite Z.eqb_refl in H. discriminate.
+  - destruct I as (_ & _ & _ & _ & (_ & _ & _ & _ & _ & _ & Q7) & _). destruct (Q7 q _ H) as (a & b & E). discriminate.
+Qed.
+
+Lemma NoDup_map_filter : forall A B (f : A -> B) g l, NoDup (map f l) -> NoDup (map f (filter g l)).
+Proof.
+  induction l; cbn; intros H; [constructor|]. inversion H; subst. destruct (g a); cbn; [|auto].
+  constructor; [|auto]. intros X. apply H2. apply in_map_iff in X. destruct X as (y & E & Y). apply filter_In in Y.
+  apply in_map_iff. exists y. tauto.
+Qed.
+
+Lemma signal_del_ok : forall h st, inv st -> inv (snd (signal_del h st)) /\ opframe st (snd (signal_del h st)).
+Proof.
+  intros h st I. unfold signal_del. destruct (h =? 0); [split; [exact I|apply opframe_refl]|].
+  destruct (sig_find h st) as [s|] eqn:F; cbn [snd]; [|apply flag_uaf_ok; exact I].
+  apply sig_find_spec in F. destruct F as [Hin Hid].
+  pose proof I as (_ & _ & _ & _ & _ & _ & _ & _ & IF). rewrite IF.
+  fold (purge_all h st). set (s1 := purge_all h st).
+  assert (SH : shrinks st s1) by apply shrinks_purge_all.
+  assert (I1 : inv s1) by (eapply inv_shrinks; eauto).
+  set (ss := filter (fun s0 => negb (s_id s0 =? h)) (sigs s1)).
+  change (set_sigs ss (emit (EvDel 3 h) s1)) with (emit (EvDel 3 h) (set_sigs ss s1)).
+  assert (I2 : inv (set_sigs ss s1)).
+  { pose proof I1 as (_ & _ & _ & (S1 & S2) & (_ & _ & _ & Q4 & _) & _).
+    apply inv_set_sigs; [exact I1| | |].
+    - split; [apply NoDup_map_filter; exact S1|]. intros s0 H. apply filter_In in H. destruct H as [H _]. auto.
+    - intros u f g k H. destruct (Q4 u f g k H) as (s0 & A & B). exists s0. split; [|exact B].
+      apply filter_In. split; [exact A|]. destruct (s_id s0 =? h) eqn:E; [|reflexivity]. apply Z.eqb_eq in E.
+      exfalso. subst f. rewrite E in H. exact (purge_all_clean h st u g k I H).
+    - intros a (s0 & A & B). left. apply filter_In in A. destruct A as [A _]. exists s0. auto. }
+  split.
+  - apply inv_emit_del; [exact I2| |].
+    + change (next_uid (set_sigs ss s1)) with (next_uid s1). rewrite (sh_uid _ _ SH). destruct I as (_ & _ & _ & (_ & S2) & _). rewrite <- Hid. auto.
+    + intros [[K _]|[[K _]|[[K _]|[_ (s0 & A & B)]]]]; try discriminate K. cbn in A. apply filter_In in A. destruct A as [_ A].
+      rewrite B, Z.eqb_refl in A. discriminate.
+  - apply (opframe_trans st s1); [apply opframe_shrinks; exact SH|].
+    apply (opframe_trans s1 (set_sigs ss s1)); [apply opframe_set_sigs|apply opframe_emit].
 Qed.
